@@ -369,6 +369,14 @@ def run_case(case, tier):
     run = obs.run_single(text, xo)
     counts["pipeline_runs"] = 1
     counts["truncations"] = 1
+    if not xo and not run.exc and rng.random() < 0.2:
+        # the reduced structure read into a container that already held (and computed) another structure
+        used = run_in_used_container(first_structure(), text)
+        counts["used_container_reads"] = counts.get("used_container_reads", 0) + 1
+        dd = obs.compare_runs(run, used, tol=1e-9)
+        if dd:
+            viol.append({"cls": "used-container-differs", "msg": "read into a used container: %s" % obs.brief(dd, 4)})
+        classes.append("read-into-used-container")
     desc.update({"atoms_left": len(pdbio.atoms(recs)), "deleted_n": len(deleted), "exc": run.exc})
     if run.exc:
         viol.append({"cls": "truncation-raises:" + run.exc_type,
@@ -394,6 +402,50 @@ def run_case(case, tier):
     nontrivial = touches_group_branch(deleted) and not run.exc
     import hashlib
     return util.finish(case, viol, counts, classes, nontrivial, desc, digest=hashlib.sha1(text.encode()).hexdigest()[:16])
+
+
+def run_in_used_container(first_text, text, optargs=()):
+    """Read `text` into a MolecularContainer that already holds (and has computed) another structure:
+    the public reader is handed a container and returns it 'updated' - what it then holds must be what a
+    fresh container would hold. Never raises."""
+    import io
+    from .. import obs
+    from propka.lib import loadOptions
+    from propka.input import read_parameter_file, read_molecule_file
+    from propka.parameters import Parameters
+    from propka.molecular_container import MolecularContainer
+    r = obs.Run()
+    r.mol = r.text = r.exc = r.exc_type = None
+    r.logs, r.wall = [], 0.0
+    r.rec = None
+    with obs.capture_logs():
+        options = loadOptions(tuple(optargs) + ("case.pdb",))
+        parameters = read_parameter_file(options.parameters, Parameters())
+        mol = MolecularContainer(parameters, options)
+        mol = read_molecule_file("first.pdb", mol, stream=io.StringIO(first_text))
+        mol.calculate_pka()
+        try:
+            mol = read_molecule_file("case.pdb", mol, stream=io.StringIO(text))
+            mol.calculate_pka()
+            r.rec = obs.record_of(mol)
+            r.rec["warnings"] = []
+        except BaseException as e:  # noqa - the exception type is the observation
+            if isinstance(e, (KeyboardInterrupt, MemoryError)):
+                raise
+            r.exc = "%s: %s" % (type(e).__name__, str(e)[:300])
+            r.exc_type = type(e).__name__
+    return r
+
+
+_FIRST = None
+
+
+def first_structure():
+    global _FIRST
+    if _FIRST is None:
+        from .. import pdbio, sources
+        _FIRST = pdbio.dump(sources.no_water(sources.repo_recs("sample-issue-140.pdb")))
+    return _FIRST
 
 
 def reject_case(case, rng, viol, counts, classes):
@@ -427,6 +479,13 @@ def reject_case(case, rng, viol, counts, classes):
         viol.append({"cls": "reject-not-valueerror", "msg": "%s (%s, as_path=%s): expected ValueError, got %r" % (mode, name, as_path, run.exc)})
     if not expect_error and run.exc:
         viol.append({"cls": "valid-extension-rejected", "msg": "%s: %r" % (name, run.exc)})
+    if not mode.startswith("ext-"):
+        # the same input read into a container that was used before: still nothing to work on
+        used = run_in_used_container(good, text)
+        counts["used_container_reads"] = counts.get("used_container_reads", 0) + 1
+        if used.exc_type != "ValueError":
+            viol.append({"cls": "reject-not-valueerror", "msg": "%s read into a used container: expected ValueError, got %r (%s)" % (
+                mode, used.exc, "conformations %r" % used.rec["names"] if used.rec else "no record")})
     classes.append("reject:" + mode)
     return util.finish(case, viol, counts, classes, True, {"kind": "reject", "mode": mode, "name": name, "exc": run.exc})
 
